@@ -912,6 +912,20 @@ inline std::vector<Finding> run_case(const Case& c)
         auto w1 = ref_program(c.expr, c.t, { a });
         auto w2 = ref_program(c.expr, c.t2, { a });
         want = events() == w2 ? w2 : w1;
+        // lazy evaluation and delivery go together (C10's half of the sentence): callables that ran for a statement that
+        // was not delivered, or a delivered statement whose callables did not run
+        {
+            long calls = 0, delivered = 0;
+            for (auto& e : events())
+            {
+                calls += e.kind == 'C';
+                delivered += e.kind == 'F';
+            }
+            if (a.sev >= VP_MIN && (calls > 0) != (delivered > 0))
+                out.push_back({ "C10", delivered ? "callable-of-emitted-record-not-evaluated" : "callable-evaluated-although-disabled-or-twice",
+                                c.cls() + ": " + std::to_string(calls) + " callable(s) evaluated, " + std::to_string(delivered) +
+                                    " record(s) delivered - the thresholds changed while the statement was open; observed: " + ev_list(events()) });
+        }
     }
     else if (c.mode == 4)
     {
